@@ -40,6 +40,10 @@
 // signals of ONE emitter and to same-arity signals of different emitters. The listener keeps one (signal, slot) list per emitter for all of that emitter's
 // signals: the listener-side walker compares it per emitter AND signal AND slot, the emitter-side walker per signal (counters same_slot_on_two_signals_of_one_emitter,
 // disconnect_slot_also_on_other_signal_of_emitter, ... and the set signal_event).
+// Class shapes: the public connect()/disconnect() templates take the emitter / receiver as V* / W* and the signal / slot as members of X / Y; the harness instantiates
+// them with five receiver-class shapes and two emitter-class shapes (see "class shapes" below: slot / signal declared in the class itself, in the primary base, in a
+// secondary base at a non-zero offset, overridden virtual slots, ...) and, for derived objects, with pointers to the complete object or to the base class. Random
+// programs draw a shape per object; the model, the oracles and the walks are the same for all shapes (counters listener_shape_*, emitter_shape_*).
 // modes: programs (random programs, replay: --start <idx> --cases 1; --start -1 replays the scripted regression scenarios, each for every arity),
 //        exhMN (every program of the small-scope space 2*8^M*10^N on the 0-argument signal, see exhaustivePrograms),
 //        exhMNx (the same space for each of the nine arities: case index = program*9 + arity), --probe <key> for the two confirmed defects.
@@ -50,7 +54,10 @@ using namespace vh;
 
 // ------------------------------------------------------------------------------------------------ harness classes
 enum { NAR = 9, NSIGS = 2 * NAR };   // arities 0..8; signal id = arity * 2 + variant (variant 1 = the twin member sigKb with the same signature as sigK)
-static void onSlot(void* self, int arity, int which, const long* vals);
+// self = the object the model identifies the listener by (its Li subobject), bodyThis = the `this` the slot body ran with, body = 0: a slot body of class Li,
+// 1: a slot body of a class derived from Li (an overrider of a virtual Li slot, or a slot the receiver class declares itself)
+static void onSlotAt(void* self, void* bodyThis, int body, int arity, int which, const long* vals);
+static inline void onSlot(void* self, int arity, int which, const long* vals) { onSlotAt(self, self, 0, arity, which, vals); }
 static inline long argVal(long seq, int p) { return seq * 16 + p; }   // value of argument p of the emission with sequence number seq
 static inline long useElem(const Elem& a) { ElemReg::onUse(&a, a.id, "slot-argument"); return a.id; }
 
@@ -128,6 +135,39 @@ struct Li : Pad, Callback::Listener {
 #undef LI_SLOTS
 };
 
+// ---- class shapes (receiver / emitter types the public connect()/disconnect() templates are instantiated with: V* src, void (X::*signal)(..), W* dest, void (Y::*slot)(..))
+// Listener shapes: where the slot's declaring class Y sits inside the receiver class W, and which function body a slot pointer reaches.
+//   own                          W = Y = Li                                   (the shape every history ran on before)
+//   primary-base                 W = LiP : Li              Y = Li at offset 0 in W (control: same addresses, different W)
+//   secondary-base               W = LiS : Model, Li       Y = Li at a NON-ZERO offset in W (slots a: plain, b: virtual, not overridden)
+//   secondary-base-overridden    W = LiO : Model, Li       as before, but W overrides every virtual slot bK: &Li::bK must reach LiO::bK with this = the LiO object
+//   own-behind-secondary-base    W = Y = LiD : Model, Li   W declares its own slots (cK plain, dK virtual; they stand for "a"/"b" of that listener); the Listener base
+//                                                          sits behind a secondary base of W
+// Emitter shapes: own (V = X = Em), secondary-base (V = EmS : PadNP, Em; the signal's declaring class X = Em at a non-zero offset in V; not polymorphic, see Em).
+// In every shape the model identifies a listener by its Li subobject (LiM::obj) and an emitter by its Em subobject (EmM::obj); LiM::top / EmM::top is the complete
+// object, which is what connect()/disconnect() are called with and what is deleted.
+enum { LS_OWN = 0, LS_PRIMARY, LS_SECONDARY, LS_SECONDARY_OVERRIDE, LS_SECONDARY_OWN, NLS };
+static const char* const LSN[NLS] = { "own", "primary-base", "secondary-base", "secondary-base-overridden", "own-behind-secondary-base" };
+enum { ES_OWN = 0, ES_SECONDARY, NES };
+static const char* const ESN[NES] = { "own", "secondary-base" };
+struct Model { long m0, m1; Model() : m0(0x4d4f44), m1(0x454c) {} virtual ~Model() { m0 = 0xdead; } virtual long poke() { return m0; } };
+struct LiP : Li { long extra; explicit LiP(long t) : Li(t), extra(~t) {} };
+struct LiS : Model, Li { long extra; explicit LiS(long t) : Li(t), extra(~t) {} };
+struct LiO : Model, Li {
+  long extra; explicit LiO(long t) : Li(t), extra(~t) {}
+#define LIO_SLOTS(K) void b##K(PL##K) override { long v[8] = { VL##K }; onSlotAt(static_cast<Li*>(this), this, 1, K, 1, v); }
+  FOR_ARITIES(LIO_SLOTS)
+#undef LIO_SLOTS
+};
+struct LiD : Model, Li {
+  long extra; explicit LiD(long t) : Li(t), extra(~t) {}
+#define LID_SLOTS(K) void c##K(PL##K) { long v[8] = { VL##K }; onSlotAt(static_cast<Li*>(this), this, 1, K, 0, v); } virtual void d##K(PL##K) { long v[8] = { VL##K }; onSlotAt(static_cast<Li*>(this), this, 1, K, 1, v); }
+  FOR_ARITIES(LID_SLOTS)
+#undef LID_SLOTS
+};
+struct PadNP { long p0, p1; PadNP() : p0(0x504144), p1(0x4e50) {} };
+struct EmS : PadNP, Em { long extra; explicit EmS(long t) : Em(t), extra(~t) {} };
+
 #define NAMES(K) "sig" #K, "sig" #K "b",
 static const char* const SIGN18[NSIGS] = { FOR_ARITIES(NAMES) };   // by signal id
 #undef NAMES
@@ -145,13 +185,28 @@ static Callback::MemberFuncPtr sigKey(int sid) {
   }
   harnessBug("sigKey: signal id %d", sid);
 }
-static Callback::MemberFuncPtr slotKey(int k, int which) {
+// How a connection to slot `slot` (declared in class Y) of a receiver object of class W may be recorded: as (Y subobject, slot as a member of Y) - what the code
+// does - or as (the W object, slot converted to a member of W); both reach the same function with the same `this`, and a library that used either form consistently
+// in connect() and disconnect() would keep the property. The walkers accept both (where Y sits at offset 0 in W the two coincide).
+struct SlotForms { Callback::MemberFuncPtr key[2]; void* obj[2]; bool differ; };
+template <class W, class Y, typename... A> static SlotForms formsOf(void* top, void (Y::*slot)(A...)) {
+  SlotForms f; W* w = static_cast<W*>(top); Y* y = w; void (W::*ws)(A...) = slot;
+  f.key[0] = Callback::MemberFuncPtr(slot); f.obj[0] = y; f.key[1] = Callback::MemberFuncPtr(ws); f.obj[1] = w;
+  f.differ = (void*)y != (void*)w || memcmp(&f.key[0].ptr, &f.key[1].ptr, sizeof f.key[0].ptr) != 0;
+  return f;
+}
+static SlotForms slotForms(int shape, void* top, int k, int which) {
   switch (k) {
-#define CASE(K) case K: return which == 0 ? Callback::MemberFuncPtr(&Li::a##K) : Callback::MemberFuncPtr(&Li::b##K);
+#define CASE(K) case K: switch (shape) { \
+    case LS_OWN: return formsOf<Li>(top, which == 0 ? &Li::a##K : &Li::b##K); \
+    case LS_PRIMARY: return formsOf<LiP>(top, which == 0 ? &Li::a##K : &Li::b##K); \
+    case LS_SECONDARY: return formsOf<LiS>(top, which == 0 ? &Li::a##K : &Li::b##K); \
+    case LS_SECONDARY_OVERRIDE: return formsOf<LiO>(top, which == 0 ? &Li::a##K : &Li::b##K); \
+    case LS_SECONDARY_OWN: return formsOf<LiD>(top, which == 0 ? &LiD::c##K : &LiD::d##K); } break;
   FOR_ARITIES(CASE)
 #undef CASE
   }
-  harnessBug("slotKey: arity %d", k);
+  harnessBug("slotForms: shape %d arity %d", shape, k);
 }
 #endif
 // the object representation of a pointer to member function (what any implementation has to go by to tell signals and slots apart); public API only
@@ -170,31 +225,70 @@ static RawKey rawSigKey(int sid) {
   }
   harnessBug("rawSigKey: signal id %d", sid);
 }
-static RawKey rawSlotKey(int k, int which) {
+static RawKey rawSlotKey(int k, int which, bool ownD = false) {   // ownD: the slots class LiD declares itself
   switch (k) {
-#define CASE(K) case K: return which == 0 ? rawKey(&Li::a##K) : rawKey(&Li::b##K);
+#define CASE(K) case K: return ownD ? (which == 0 ? rawKey(&LiD::c##K) : rawKey(&LiD::d##K)) : which == 0 ? rawKey(&Li::a##K) : rawKey(&Li::b##K);
   FOR_ARITIES(CASE)
 #undef CASE
   }
   harnessBug("rawSlotKey: arity %d", k);
 }
-static void realConnect(Em* e, int sid, Li* l, int which) {
+// the public templates, instantiated for every (emitter class V, receiver class W) pair; ViaLi: the slots are named as members of Li (Y = Li whatever W is),
+// ViaLiD: the slots class LiD declares itself (Y = W = LiD)
+struct ViaLi {
+#define OPS(K) template <class V, class W> static void conn##K(V* e, void (Em::*s)(TL##K), W* l, int which) { if (which == 0) Callback::connect(e, s, l, &Li::a##K); else Callback::connect(e, s, l, &Li::b##K); } \
+               template <class V, class W> static void disc##K(V* e, void (Em::*s)(TL##K), W* l, int which) { if (which == 0) Callback::disconnect(e, s, l, &Li::a##K); else Callback::disconnect(e, s, l, &Li::b##K); }
+  FOR_ARITIES(OPS)
+#undef OPS
+};
+struct ViaLiD {
+#define OPS(K) template <class V, class W> static void conn##K(V* e, void (Em::*s)(TL##K), W* l, int which) { if (which == 0) Callback::connect(e, s, l, &LiD::c##K); else Callback::connect(e, s, l, &LiD::d##K); } \
+               template <class V, class W> static void disc##K(V* e, void (Em::*s)(TL##K), W* l, int which) { if (which == 0) Callback::disconnect(e, s, l, &LiD::c##K); else Callback::disconnect(e, s, l, &LiD::d##K); }
+  FOR_ARITIES(OPS)
+#undef OPS
+};
+template <class P, class V, class W> static void connectVW(V* e, int sid, W* l, int which) {
   switch (sid) {
-#define CASE(K) case 2 * K: if (which == 0) Callback::connect(e, &Em::sig##K, l, &Li::a##K); else Callback::connect(e, &Em::sig##K, l, &Li::b##K); return; \
-                case 2 * K + 1: if (which == 0) Callback::connect(e, &Em::sig##K##b, l, &Li::a##K); else Callback::connect(e, &Em::sig##K##b, l, &Li::b##K); return;
+#define CASE(K) case 2 * K: P::conn##K(e, &Em::sig##K, l, which); return; case 2 * K + 1: P::conn##K(e, &Em::sig##K##b, l, which); return;
   FOR_ARITIES(CASE)
 #undef CASE
   }
-  harnessBug("realConnect: signal id %d", sid);
+  harnessBug("connect: signal id %d", sid);
 }
-static void realDisconnect(Em* e, int sid, Li* l, int which) {
+template <class P, class V, class W> static void disconnectVW(V* e, int sid, W* l, int which) {
   switch (sid) {
-#define CASE(K) case 2 * K: if (which == 0) Callback::disconnect(e, &Em::sig##K, l, &Li::a##K); else Callback::disconnect(e, &Em::sig##K, l, &Li::b##K); return; \
-                case 2 * K + 1: if (which == 0) Callback::disconnect(e, &Em::sig##K##b, l, &Li::a##K); else Callback::disconnect(e, &Em::sig##K##b, l, &Li::b##K); return;
+#define CASE(K) case 2 * K: P::disc##K(e, &Em::sig##K, l, which); return; case 2 * K + 1: P::disc##K(e, &Em::sig##K##b, l, which); return;
   FOR_ARITIES(CASE)
 #undef CASE
   }
-  harnessBug("realDisconnect: signal id %d", sid);
+  harnessBug("disconnect: signal id %d", sid);
+}
+template <class V> static void connectV(V* e, int sid, int lshape, void* ltop, int which) {
+  switch (lshape) {
+  case LS_OWN: connectVW<ViaLi>(e, sid, static_cast<Li*>(ltop), which); return;
+  case LS_PRIMARY: connectVW<ViaLi>(e, sid, static_cast<LiP*>(ltop), which); return;
+  case LS_SECONDARY: connectVW<ViaLi>(e, sid, static_cast<LiS*>(ltop), which); return;
+  case LS_SECONDARY_OVERRIDE: connectVW<ViaLi>(e, sid, static_cast<LiO*>(ltop), which); return;
+  case LS_SECONDARY_OWN: connectVW<ViaLiD>(e, sid, static_cast<LiD*>(ltop), which); return;
+  }
+  harnessBug("connect: listener shape %d", lshape);
+}
+template <class V> static void disconnectV(V* e, int sid, int lshape, void* ltop, int which) {
+  switch (lshape) {
+  case LS_OWN: disconnectVW<ViaLi>(e, sid, static_cast<Li*>(ltop), which); return;
+  case LS_PRIMARY: disconnectVW<ViaLi>(e, sid, static_cast<LiP*>(ltop), which); return;
+  case LS_SECONDARY: disconnectVW<ViaLi>(e, sid, static_cast<LiS*>(ltop), which); return;
+  case LS_SECONDARY_OVERRIDE: disconnectVW<ViaLi>(e, sid, static_cast<LiO*>(ltop), which); return;
+  case LS_SECONDARY_OWN: disconnectVW<ViaLiD>(e, sid, static_cast<LiD*>(ltop), which); return;
+  }
+  harnessBug("disconnect: listener shape %d", lshape);
+}
+// etop / ltop: the complete objects (exactly the pointers they were created as)
+static void realConnect(int eshape, void* etop, int sid, int lshape, void* ltop, int which) {
+  if (eshape == ES_OWN) connectV(static_cast<Em*>(etop), sid, lshape, ltop, which); else if (eshape == ES_SECONDARY) connectV(static_cast<EmS*>(etop), sid, lshape, ltop, which); else harnessBug("connect: emitter shape %d", eshape);
+}
+static void realDisconnect(int eshape, void* etop, int sid, int lshape, void* ltop, int which) {
+  if (eshape == ES_OWN) disconnectV(static_cast<Em*>(etop), sid, lshape, ltop, which); else if (eshape == ES_SECONDARY) disconnectV(static_cast<EmS*>(etop), sid, lshape, ltop, which); else harnessBug("disconnect: emitter shape %d", eshape);
 }
 static void realEmit(Em* e, int sid, long seq) {
   switch (sid) {
@@ -208,10 +302,18 @@ static void realEmit(Em* e, int sid, long seq) {
 static void checkKeysDistinct() {
   for (int a = 0; a < NSIGS; ++a) for (int b = a + 1; b < NSIGS; ++b) if (sameKey(rawSigKey(a), rawSigKey(b))) harnessBug("signal keys of %s and %s coincide", SIGN18[a], SIGN18[b]);
   for (int a = 0; a < 2 * NAR; ++a) for (int b = a + 1; b < 2 * NAR; ++b) if (sameKey(rawSlotKey(a / 2, a % 2), rawSlotKey(b / 2, b % 2))) harnessBug("slot keys %s and %s coincide", SLOTN9[a / 2][a % 2], SLOTN9[b / 2][b % 2]);
+  for (int a = 0; a < 2 * NAR; ++a) for (int b = a + 1; b < 2 * NAR; ++b) if (sameKey(rawSlotKey(a / 2, a % 2, true), rawSlotKey(b / 2, b % 2, true))) harnessBug("slot keys of class LiD coincide (%d, %d)", a, b);
 #ifndef VERIF_NO_PRIVATE
   for (int a = 0; a < NSIGS; ++a) for (int b = a + 1; b < NSIGS; ++b) if (sigKey(a) == sigKey(b)) harnessBug("library signal keys of %s and %s coincide", SIGN18[a], SIGN18[b]);
-  for (int a = 0; a < 2 * NAR; ++a) for (int b = a + 1; b < 2 * NAR; ++b) if (slotKey(a / 2, a % 2) == slotKey(b / 2, b % 2)) harnessBug("library slot keys %s and %s coincide", SLOTN9[a / 2][a % 2], SLOTN9[b / 2][b % 2]);
+  // per listener shape: the keys of the slots of one listener must be pairwise distinct in either form (probe objects; nothing is connected to them)
+  Li o0(0); LiP o1(0); LiS o2(0); LiO o3(0); LiD o4(0); void* tops[NLS] = { &o0, &o1, &o2, &o3, &o4 };
+  for (int sh = 0; sh < NLS; ++sh) for (int f = 0; f < 2; ++f) for (int a = 0; a < 2 * NAR; ++a) for (int b = a + 1; b < 2 * NAR; ++b)
+    if (slotForms(sh, tops[sh], a / 2, a % 2).key[f] == slotForms(sh, tops[sh], b / 2, b % 2).key[f]) harnessBug("library slot keys %s and %s coincide (listener shape %s, form %d)", SLOTN9[a / 2][a % 2], SLOTN9[b / 2][b % 2], LSN[sh], f);
+  if (!slotForms(LS_SECONDARY, tops[LS_SECONDARY], 0, 0).differ || slotForms(LS_PRIMARY, tops[LS_PRIMARY], 0, 0).differ) harnessBug("listener shapes: Li is expected at a non-zero offset in LiS and at offset 0 in LiP");
 #endif
+  { LiS s(0); LiO o(0); LiD d(0); LiP p(0); EmS e(0);
+    if ((void*)static_cast<Li*>(&s) == (void*)&s || (void*)static_cast<Li*>(&o) == (void*)&o || (void*)static_cast<Li*>(&d) == (void*)&d || (void*)static_cast<Li*>(&p) != (void*)&p || (void*)static_cast<Em*>(&e) == (void*)&e)
+      harnessBug("class shapes: the secondary bases are expected at a non-zero offset, the primary base at offset 0"); }
 }
 
 // per-arity observations (kept locally: vh::cnt is a linear search; flushed by flushArityStats)
@@ -226,6 +328,36 @@ enum SgEv { SE_EMIT = 0, SE_CONNECT, SE_DISCONNECT, SE_INVOKED, NSE };
 static const char* const SEN[NSE] = { "emit", "connect", "disconnect", "invoked" };
 static long g_sg[NSIGS][NSE];
 static inline void sgEv(int sid, int ev) { ++g_sg[sid][ev]; }
+// per-class-shape observations (listener shapes LSN, emitter shapes ESN): the same events on every shape, so that "ran" is not confused with "observed on that shape"
+enum LsEv { LE_CREATE = 0, LE_CONNECT, LE_CONNECT_SIGNAL_EMITTING, LE_DISCONNECT_LIVE, LE_DISCONNECT_LIVE_SIGNAL_EMITTING, LE_DISCONNECT_OTHER_POINTER_TYPE, LE_RECONNECT_AFTER_DISCONNECT, LE_INVOKED, LE_INVOKED_VIRTUAL_SLOT,
+            LE_INVOKED_DERIVED_BODY, LE_SILENT_AFTER_DISCONNECT, LE_DESTROY_CONNECTED, LE_DESTROY_IN_OWN_SLOT, LE_WALK_RECORD, LE_WALK_RECORD_RECEIVER_FORM, NLE };
+static const char* const LEN[NLE] = { "create", "connect", "connect_signal_emitting", "disconnect_live", "disconnect_live_signal_emitting", "disconnect_live_via_other_pointer_type", "reconnect_after_disconnect", "invoked", "invoked_virtual_slot",
+                                      "invoked_body_of_derived_class", "emission_completed_without_disconnected_slot", "destroy_connected", "destroy_in_own_slot", "emitter_side_records_matched_by_walks",
+                                      "emitter_side_records_in_receiver_class_form" };
+static long g_ls[NLS][NLE];
+static inline void lsEv(int shape, int ev, long n = 1) { g_ls[shape][ev] += n; }
+enum EsEv { EE_CREATE = 0, EE_CONNECT, EE_DISCONNECT_LIVE, EE_EMIT, EE_EMIT_RECURSIVE, EE_INVOKED, EE_DESTROY_CONNECTED, EE_DESTROY_WHILE_EMITTING, NEE };
+static const char* const EEN[NEE] = { "create", "connect", "disconnect_live", "emit", "emit_recursive", "invoked", "destroy_connected", "destroy_while_emitting" };
+static long g_es[NES][NEE];
+static inline void esEv(int shape, int ev) { ++g_es[shape][ev]; }
+static long g_pairInvoked[NES][NLS];   // invocations by (emitter shape, listener shape)
+static void flushShapeStats() {
+  char nm[128], it[128];
+  for (int sh = 0; sh < NLS; ++sh) for (int ev = 0; ev < NLE; ++ev) {
+    if (!g_ls[sh][ev]) continue;
+    snprintf(nm, sizeof nm, "listener_shape_%s_%s", LSN[sh], LEN[ev]); for (char* c = nm; *c; ++c) if (*c == '-') *c = '_';
+    cnt(nm, g_ls[sh][ev]); snprintf(it, sizeof it, "%s/%s", LSN[sh], LEN[ev]); setItem("listener_shape_event", it);
+    if (sh != LS_OWN) { snprintf(nm, sizeof nm, "listener_shapes_other_than_own_%s", LEN[ev]); cnt(nm, g_ls[sh][ev]); }
+    g_ls[sh][ev] = 0;
+  }
+  for (int sh = 0; sh < NES; ++sh) for (int ev = 0; ev < NEE; ++ev) {
+    if (!g_es[sh][ev]) continue;
+    snprintf(nm, sizeof nm, "emitter_shape_%s_%s", ESN[sh], EEN[ev]); for (char* c = nm; *c; ++c) if (*c == '-') *c = '_';
+    cnt(nm, g_es[sh][ev]); snprintf(it, sizeof it, "%s/%s", ESN[sh], EEN[ev]); setItem("emitter_shape_event", it);
+    g_es[sh][ev] = 0;
+  }
+  for (int a = 0; a < NES; ++a) for (int b = 0; b < NLS; ++b) if (g_pairInvoked[a][b]) { snprintf(it, sizeof it, "emitter:%s/listener:%s", ESN[a], LSN[b]); setItem("shape_pair_invoked", it); g_pairInvoked[a][b] = 0; }
+}
 static void flushArityStats() {
   for (int sid = 0; sid < NSIGS; ++sid) for (int ev = 0; ev < NSE; ++ev) {
     if (!g_sg[sid][ev]) continue;
@@ -246,9 +378,14 @@ static void flushArityStats() {
 // ------------------------------------------------------------------------------------------------ model
 enum { MAXE = 3, MAXL = 4, MAXS = 3 };   // MAXS = signal indexes per emitter object
 enum Why { W_LIVE = 0, W_DISC_QUIESCENT, W_DISC_EMITTING, W_LISTENER_DESTROYED, W_EMITTER_DESTROYED };
-struct LiM { int idx; long gen; Li* obj; bool live; };
-struct Rec { LiM* l; int which; u64 serial; bool live; int why; u64 diedAt; };
-struct EmM { int idx; long gen; Em* obj; bool live; int sid[MAXS]; int ar[MAXS]; int depth[MAXS]; u64 outerStart[MAXS]; bool everConn[MAXS]; Vec<Rec> recs[MAXS]; };   // everConn[s] = connect() was called for signal index s of this object; sid[s] = signal id (which of the 18 signal members) behind signal index s, ar[s] = sid[s] / 2 = its arity
+struct LiM { int idx; long gen; Li* obj; bool live; int shape; void* top; size_t topSize; Vec<u64> discKeys;   // discKeys: (emitter generation, signal index, slot) of connections of this listener that were disconnected (reconnect observation)
+    // obj = the Li subobject (identity of the listener), top = the complete object of class LSN[shape], topSize = its size
+#ifndef VERIF_NO_PRIVATE
+  SlotForms forms[NAR][2];   // by arity and slot a/b
+#endif
+};
+struct Rec { LiM* l; int which; u64 serial; bool live; int why; u64 diedAt; bool viaBaseL, viaBaseE; };   // viaBase*: connect() was called with a pointer to the base class Li / Em instead of the complete object
+struct EmM { int idx; long gen; Em* obj; bool live; int shape; void* top; long discPending[MAXS][NLS]; int sid[MAXS]; int ar[MAXS]; int depth[MAXS]; u64 outerStart[MAXS]; bool everConn[MAXS]; Vec<Rec> recs[MAXS]; };   // everConn[s] = connect() was called for signal index s of this object; sid[s] = signal id (which of the 18 signal members) behind signal index s, ar[s] = sid[s] / 2 = its arity
 #define SN(e, sig) SIGN18[(e)->sid[sig]]
 #define LN(e, sig, which) SLOTN9[(e)->ar[sig]][which]
 struct Frame { EmM* e; int sig; size_t pos; long arg; long invoked; u64 startClock; };
@@ -270,6 +407,10 @@ struct G {
   int maxDepth, nestNum, nestDen; long slotBudget;
   u64 fp; long invocations, nestedActions, maxDepthSeen;
   void (*script)(const SlotCtx&);
+  int fixedLShape, fixedEShape;   // >= 0: every listener / emitter object of the case has this class shape (exhaustive programs, scripted scenarios); -1: drawn per object
+  int ptrMode;      // static type of the pointers connect()/disconnect() get for objects whose class is derived from Li / Em: 0 = always the complete-object type, 1 = the base class Li / Em in 1 call of 4
+                    // (drawn per call and side), 2 = connect with the complete-object type, disconnect with the base-class type (scripted)
+  bool shapesAll;   // with fixed*Shape < 0: every object draws its class shape uniformly from all shapes (otherwise all objects have shape "own")
   int fixedAr;   // >= 0: every emitter gets this arity behind signal index 0 (exhaustive programs, scripted scenarios); -1: drawn per emitter object
   bool fixedTwin; // with fixedAr >= 0: signal index 1 is the twin signal of the same arity (sigKb) instead of the next arity
   int pal[NAR], npal;   // arities the emitters of this case draw from (all nine, or a palette of 2..3 so that several emitters carry same-arity signals)
@@ -298,6 +439,8 @@ static void histf(const char* fmt, ...) {
 }
 
 static LiM* liveListenerAt(void* self) { for (int i = 0; i < g.NL; ++i) if (g.li[i] && g.li[i]->live && (void*)g.li[i]->obj == self) return g.li[i]; return 0; }
+// the live listener whose complete object contains address p (a slot that ran with a `this` pointing somewhere else into the right object)
+static LiM* liveListenerAround(void* p) { for (int i = 0; i < g.NL; ++i) if (g.li[i] && g.li[i]->live && (char*)p >= (char*)g.li[i]->top && (char*)p < (char*)g.li[i]->top + g.li[i]->topSize) return g.li[i]; return 0; }
 #ifndef VERIF_NO_PRIVATE
 static EmM* liveEmitterAt(Callback::Emitter* p) { for (int i = 0; i < g.NE; ++i) if (g.em[i] && g.em[i]->live && (Callback::Emitter*)g.em[i]->obj == p) return g.em[i]; return 0; }
 #endif
@@ -321,6 +464,13 @@ static long liveOnOtherEmitters(EmM* e, int sig, LiM* l, int which) {
   return n;
 }
 
+// key of an invocation-oracle verdict: the class shapes of the receiver / emitter concerned are part of the state class when they are not the plain "own" shape
+static const char* shapedKey(const char* base, EmM* e, LiM* l) {
+  static char key[200]; size_t n = (size_t)snprintf(key, sizeof key, "%s", base);
+  if (l && l->shape != LS_OWN && n < sizeof key) n += (size_t)snprintf(key + n, sizeof key - n, "/receiver-shape=%s", LSN[l->shape]);
+  if (e && e->shape != ES_OWN && n < sizeof key) snprintf(key + n, sizeof key - n, "/emitter-shape=%s", ESN[e->shape]);
+  return key;
+}
 // next record the emission frame F must invoke, or NPOS
 static size_t nextExpected(const Frame& F) {
   const Vec<Rec>& v = F.e->recs[F.sig];
@@ -354,9 +504,30 @@ static long g_ops = 0;   // API-level operations (connect / disconnect / emit / 
 //   emit calls, none is running), the list's size equals its linked items, and a record still "connecting" with a clear dirty flag is an error (nothing would ever
 //   promote it: a live connection no emission invokes).
 // relaxed (inside emissions, attribution only): connecting is expected exactly for records younger than the outermost emission.
+// which slot (0 = a, 1 = b) of listener l, for a signal of arity k, the library's slot key denotes (-1: none); *form = 0: recorded as a member of the slot's
+// declaring class, 1: as a member of the receiver class (only told apart where the two differ)
+static int slotOfKey(LiM* l, int k, const Callback::MemberFuncPtr& key, int* form = 0) {
+  for (int wh = 0; wh < 2; ++wh) for (int f = 0; f < 2; ++f) if (key == l->forms[k][wh].key[f]) { if (form) *form = f; return wh; }
+  return -1;
+}
+// is the emitter-side record (receiver, object, slot) a faithful record of "slot wh of listener l" (either form, object and slot key of the same form)?
+static bool recordIs(LiM* l, int k, int wh, Callback::Listener* receiver, void* object, const Callback::MemberFuncPtr& slot, int* form) {
+  if (receiver != (Callback::Listener*)l->obj) return false;
+  const SlotForms& sf = l->forms[k][wh];
+  for (int f = 0; f < 2; ++f) if (slot == sf.key[f] && object == sf.obj[f]) { *form = f; return true; }
+  return false;
+}
+// class shapes involved in a divergence the walkers report (part of the key: a divergence that needs a particular class shape is its own kind); "" = all "own"
+static char g_walkShapes[96];
+static void noteShapes(EmM* e, LiM* l) {
+  g_walkShapes[0] = 0; size_t n = 0;
+  if (l && l->shape != LS_OWN) n += (size_t)snprintf(g_walkShapes + n, sizeof g_walkShapes - n, "/receiver-shape=%s", LSN[l->shape]);
+  if (e && e->shape != ES_OWN) snprintf(g_walkShapes + n, sizeof g_walkShapes - n, "/emitter-shape=%s", ESN[e->shape]);
+}
 static long g_tombstonesAtQuiescence = 0, g_dirtyAtQuiescence = 0, g_connectingAtQuiescence = 0, g_unknownEmptyEntries = 0;
 static const char* walkEmitter(EmM* e, bool strict, char* msg, size_t msgsz) {
   Callback::Emitter& ce = *e->obj;
+  noteShapes(e, 0);
   bool seen[MAXS]; for (int i = 0; i < MAXS; ++i) seen[i] = false;
   long guard = 0;
   for (auto it = ce.signalData.begin(), itEnd = ce.signalData.end(); it != itEnd; ++it) {
@@ -386,19 +557,25 @@ static const char* walkEmitter(EmM* e, bool strict, char* msg, size_t msgsz) {
       ++g_recordsCompared;
       if (mp == v.n) {
         LiM* who = 0; for (int i = 0; i < g.NL; ++i) if (g.li[i] && g.li[i]->live && (Callback::Listener*)g.li[i]->obj == s->receiver) who = g.li[i];
-        int wh = s->slot == slotKey(e->ar[sig], 0) ? 0 : s->slot == slotKey(e->ar[sig], 1) ? 1 : -1;
+        int wh = who ? slotOfKey(who, e->ar[sig], s->slot) : -1;
         snprintf(msg, msgsz, "E%d.%s: emitter side holds a connected record (listener %s%d, slot %s) beyond the %ld live connection(s) of the model", e->idx, SN(e, sig),
                  who ? "L" : "<destroyed or unknown> #", who ? who->idx : -1, wh >= 0 ? LN(e, sig, wh) : "?", n);
+        noteShapes(e, who);
         return "emitter-side-stale-record";
       }
       const Rec& rc = v[mp];
-      bool same = s->receiver == (Callback::Listener*)rc.l->obj && s->object == (void*)rc.l->obj && s->slot == slotKey(e->ar[sig], rc.which);
+      int form = 0;
+      bool same = recordIs(rc.l, e->ar[sig], rc.which, s->receiver, s->object, s->slot, &form);
       if (!same) {
         // is the library's record some *other* live connection of the model (order / wrong victim) or nothing the model knows (stale)?
-        bool known = false; for (size_t q = 0; q < v.n; ++q) if (v[q].live && s->receiver == (Callback::Listener*)v[q].l->obj && s->slot == slotKey(e->ar[sig], v[q].which)) known = true;
+        bool known = false; LiM* who = 0; int f2;
+        for (size_t q = 0; q < v.n; ++q) if (v[q].live && recordIs(v[q].l, e->ar[sig], v[q].which, s->receiver, s->object, s->slot, &f2)) known = true;
+        for (int i = 0; i < g.NL; ++i) if (g.li[i] && g.li[i]->live && (Callback::Listener*)g.li[i]->obj == s->receiver) who = g.li[i];
         snprintf(msg, msgsz, "E%d.%s: live record #%ld differs: model expects L%d.%s", e->idx, SN(e, sig), n, rc.l->idx, LN(e, sig, rc.which));
+        noteShapes(e, who ? who : rc.l);
         return known ? "emitter-side-record-order" : "emitter-side-stale-record";
       }
+      lsEv(rc.l->shape, LE_WALK_RECORD); if (form == 1 && rc.l->forms[e->ar[sig]][rc.which].differ) lsEv(rc.l->shape, LE_WALK_RECORD_RECEIVER_FORM);
       if (!strict && e->depth[sig] > 0) {   // only while this signal is being emitted (otherwise a record still connecting is clean-up that is pending)
         bool wantConnecting = rc.serial >= e->outerStart[sig];
         if ((st == (int)Callback::Emitter::Slot::connecting) != wantConnecting) { snprintf(msg, msgsz, "E%d.%s: record #%ld state %d, expected %s", e->idx, SN(e, sig), n, st, wantConnecting ? "connecting" : "connected"); return "emitter-side-record-state"; }
@@ -407,7 +584,7 @@ static const char* walkEmitter(EmM* e, bool strict, char* msg, size_t msgsz) {
     }
     if (strict && (long)d.slots.size() != walked) { snprintf(msg, msgsz, "E%d.%s: the slot list reports size %ld but %ld items are linked", e->idx, SN(e, sig), (long)d.slots.size(), walked); return "emitter-side-list-corrupt"; }
     while (mp < v.n && !v[mp].live) ++mp;
-    if (mp != v.n) { snprintf(msg, msgsz, "E%d.%s: live connection to L%d.%s has no record on the emitter side (%ld found)", e->idx, SN(e, sig), v[mp].l->idx, LN(e, sig, v[mp].which), n); return "emitter-side-missing-record"; }
+    if (mp != v.n) { snprintf(msg, msgsz, "E%d.%s: live connection to L%d.%s has no record on the emitter side (%ld found)", e->idx, SN(e, sig), v[mp].l->idx, LN(e, sig, v[mp].which), n); noteShapes(e, v[mp].l); return "emitter-side-missing-record"; }
     if (strict) {
       if (connecting && !d.dirty) {
         snprintf(msg, msgsz, "E%d.%s: %ld record(s) still in state connecting although no emission is in progress and the dirty flag is clear (nothing will promote them: no emission invokes them)", e->idx, SN(e, sig), connecting);
@@ -422,6 +599,7 @@ static const char* walkEmitter(EmM* e, bool strict, char* msg, size_t msgsz) {
 
 static const char* walkListener(LiM* l, char* msg, size_t msgsz) {
   Callback::Listener& cl = *l->obj;
+  noteShapes(0, l);
   bool seenE[MAXE]; for (int i = 0; i < MAXE; ++i) seenE[i] = false;
   long guard = 0;
   for (auto it = cl.slotData.begin(), itEnd = cl.slotData.end(); it != itEnd; ++it) {
@@ -435,11 +613,12 @@ static const char* walkListener(LiM* l, char* msg, size_t msgsz) {
       ++g_recordsCompared;
       if (!e) { snprintf(msg, msgsz, "L%d: listener side still lists a connection to an emitter that was destroyed", l->idx); return "listener-side-record-for-destroyed-emitter"; }
       int sig = sigIndexOfKey(e, s->signal);
-      int wh = sig < 0 ? -1 : s->slot == slotKey(e->ar[sig], 0) ? 0 : s->slot == slotKey(e->ar[sig], 1) ? 1 : -1;
+      int wh = sig < 0 ? -1 : slotOfKey(l, e->ar[sig], s->slot);
       if (wh < 0) { snprintf(msg, msgsz, "L%d: listener side lists an unknown (signal, slot) pair for E%d", l->idx, e->idx); return "listener-side-unknown-pair"; }
       ++have[sig][wh];
     }
     if (!e) continue;   // stale key of a destroyed emitter with an empty list: describes no connection
+    noteShapes(e, l);
     if (seenE[e->idx]) { snprintf(msg, msgsz, "L%d: two listener-side entries for E%d", l->idx, e->idx); return "listener-side-map-corrupt"; }
     seenE[e->idx] = true;
     long wantAll[MAXS][2];
@@ -498,8 +677,8 @@ static void quiescentCheck() {
   cnt("quiescent_walks");
   if (k) {
     char key[300];
-    if (g.suspect) snprintf(key, sizeof key, "%s/bookkeeping/%s", g.suspectCtx, k);
-    else snprintf(key, sizeof key, "Callback.bookkeeping/after-%s/%s", g.topAction, k);
+    if (g.suspect) snprintf(key, sizeof key, "%s/bookkeeping/%s%s", g.suspectCtx, k, g_walkShapes);
+    else snprintf(key, sizeof key, "Callback.bookkeeping/after-%s/%s%s", g.topAction, k, g_walkShapes);
     fail(key, "at the quiescent point after top-level %s: %s%s%s", g.topAction, msg, g.suspect ? "; structures first diverged right after " : "", g.suspect ? g.suspectCtx : "");
   }
   if (g.suspect) cnt("diagnostic_divergence_without_verdict");
@@ -525,6 +704,10 @@ static void flushWalkStats() {
 }
 
 // ------------------------------------------------------------------------------------------------ actions (model + real call)
+// may this call name the object through a pointer to its base class (Li / Em)? Only where that is a different type and the slots are members of Li
+static bool baseLPossible(LiM* l) { return l->shape == LS_PRIMARY || l->shape == LS_SECONDARY || l->shape == LS_SECONDARY_OVERRIDE; }
+static bool baseEPossible(EmM* e) { return e->shape == ES_SECONDARY; }
+static bool drawViaBase(bool possible, bool isDisconnect) { if (!possible || g.ptrMode == 0) return false; if (g.ptrMode == 2) return isDisconnect; return g.r.chance(1, 4); }
 static const char* connClass(EmM* e, int sig) { return g.frames.n == 0 ? "quiescent" : e->depth[sig] > 0 ? "signal-emitting" : "in-slot"; }
 
 static void actConnect(EmM* e, int sig, LiM* l, int which) {
@@ -535,10 +718,14 @@ static void actConnect(EmM* e, int sig, LiM* l, int which) {
   long twin = liveOnOtherSignals(e, sig, l, which), otherE = liveOnOtherEmitters(e, sig, l, which);
   histf("connect(E%d.%s -> L%d.%s)%s%s", e->idx, SN(e, sig), l->idx, LN(e, sig, which), dup ? "   # duplicate" : "", twin ? "   # this slot is also connected to another signal of this emitter" : "");
   Rec rc; rc.l = l; rc.which = which; rc.serial = g.serial++; rc.live = true; rc.why = W_LIVE; rc.diedAt = 0;
+  rc.viaBaseL = drawViaBase(baseLPossible(l), false); rc.viaBaseE = drawViaBase(baseEPossible(e), false);
+  if (rc.viaBaseL || rc.viaBaseE) { histf("  # that call: %s%s%s", rc.viaBaseL ? "receiver passed as a pointer to its base class Li" : "", rc.viaBaseL && rc.viaBaseE ? ", " : "", rc.viaBaseE ? "emitter passed as a pointer to its base class Em" : ""); cnt("connect_through_base_class_pointer"); }
   e->recs[sig].push(rc); e->everConn[sig] = true;
   ++g.clock; ++g_ops;
-  realConnect(e->obj, e->sid[sig], l->obj, which);
+  realConnect(rc.viaBaseE ? (int)ES_OWN : e->shape, rc.viaBaseE ? (void*)e->obj : e->top, e->sid[sig], rc.viaBaseL ? (int)LS_OWN : l->shape, rc.viaBaseL ? (void*)l->obj : l->top, which);
   sgEv(e->sid[sig], SE_CONNECT);
+  lsEv(l->shape, LE_CONNECT); if (e->depth[sig] > 0) lsEv(l->shape, LE_CONNECT_SIGNAL_EMITTING); esEv(e->shape, EE_CONNECT);
+  { u64 dk = (u64)e->gen * 64 + (u64)sig * 2 + (u64)which; for (size_t q = 0; q < l->discKeys.n; ++q) if (l->discKeys[q] == dk) { lsEv(l->shape, LE_RECONNECT_AFTER_DISCONNECT); l->discKeys.removeAt(q); break; } }
   if (twin) { cnt("same_slot_on_two_signals_of_one_emitter"); if (e->depth[sig] > 0) cnt("same_slot_on_two_signals_of_one_emitter_signal_emitting"); }
   if (otherE) cnt("same_slot_on_signals_of_two_emitters");
   arEv(e->ar[sig], AE_CONNECT); if (e->depth[sig] > 0) arEv(e->ar[sig], AE_CONNECT_SIGNAL_EMITTING);
@@ -559,12 +746,19 @@ static void actDisconnect(EmM* e, int sig, LiM* l, int which) {
   // the same listener slot is connected to another signal of this emitter as well; olderTwin: that other connection was made first (its listener-side record comes first)
   long twin = hit == NPOS ? 0 : liveOnOtherSignals(e, sig, l, which); bool olderTwin = false;
   if (twin) for (int s = 0; s < MAXS; ++s) if (s != sig && e->ar[s] == e->ar[sig]) { const Vec<Rec>& o = e->recs[s]; for (size_t q = 0; q < o.n; ++q) if (o[q].live && o[q].l == l && o[q].which == which && o[q].serial < v[hit].serial) olderTwin = true; }
+  bool viaBaseL = drawViaBase(baseLPossible(l), true), viaBaseE = drawViaBase(baseEPossible(e), true);
+  if (hit != NPOS && (viaBaseL != v[hit].viaBaseL || viaBaseE != v[hit].viaBaseE)) { cnt("disconnect_live_through_other_pointer_type_than_connect"); if (viaBaseL != v[hit].viaBaseL) lsEv(l->shape, LE_DISCONNECT_OTHER_POINTER_TYPE); }
   histf("disconnect(E%d.%s -> L%d.%s)%s%s", e->idx, SN(e, sig), l->idx, LN(e, sig, which), hit == NPOS ? "   # not connected" : "", twin ? "   # this slot stays connected to another signal of this emitter" : "");
+  if (viaBaseL || viaBaseE) histf("  # that call: %s%s%s", viaBaseL ? "receiver passed as a pointer to its base class Li" : "", viaBaseL && viaBaseE ? ", " : "", viaBaseE ? "emitter passed as a pointer to its base class Em" : "");
   ++g.clock;
   if (hit != NPOS) { v[hit].live = false; v[hit].why = g.frames.n && e->depth[sig] > 0 ? W_DISC_EMITTING : W_DISC_QUIESCENT; v[hit].diedAt = g.clock; }
   ++g_ops;
-  realDisconnect(e->obj, e->sid[sig], l->obj, which);
+  realDisconnect(viaBaseE ? (int)ES_OWN : e->shape, viaBaseE ? (void*)e->obj : e->top, e->sid[sig], viaBaseL ? (int)LS_OWN : l->shape, viaBaseL ? (void*)l->obj : l->top, which);
   sgEv(e->sid[sig], SE_DISCONNECT);
+  if (hit != NPOS) {
+    lsEv(l->shape, LE_DISCONNECT_LIVE); if (e->depth[sig] > 0) lsEv(l->shape, LE_DISCONNECT_LIVE_SIGNAL_EMITTING); esEv(e->shape, EE_DISCONNECT_LIVE);
+    ++e->discPending[sig][l->shape]; if (l->discKeys.n < 64) l->discKeys.push((u64)e->gen * 64 + (u64)sig * 2 + (u64)which);
+  }
   if (twin) { cnt("disconnect_slot_also_on_other_signal_of_emitter"); if (olderTwin) cnt("disconnect_later_connected_of_two_signals_of_one_emitter"); if (e->depth[sig] > 0) cnt("disconnect_slot_also_on_other_signal_of_emitter_signal_emitting"); }
   if (hit == NPOS && liveOnOtherSignals(e, sig, l, which)) cnt("disconnect_not_connected_slot_on_other_signal_of_emitter");
   arEv(e->ar[sig], AE_DISCONNECT); if (e->depth[sig] > 0) arEv(e->ar[sig], AE_DISCONNECT_SIGNAL_EMITTING);
@@ -592,7 +786,7 @@ static void actEmit(EmM* e, int sig) {
   g.fp = mix(g.fp, 13 + (u64)e->idx * 7 + (u64)sig * 3 + (u64)depthNow() * 1000);
   Em* obj = e->obj;
   arEv(e->ar[sig], AE_EMIT); if (e->depth[sig] > 1) arEv(e->ar[sig], AE_EMIT_RECURSIVE);
-  sgEv(e->sid[sig], SE_EMIT);
+  sgEv(e->sid[sig], SE_EMIT); esEv(e->shape, EE_EMIT); if (e->depth[sig] > 1) esEv(e->shape, EE_EMIT_RECURSIVE);
   ++g_ops;
   realEmit(obj, e->sid[sig], arg);
   // obj may be deleted by now; only the model is consulted
@@ -603,10 +797,12 @@ static void actEmit(EmM* e, int sig) {
     size_t p = nextExpected(F);
     if (p != NPOS) {
       const Rec& rc = e->recs[sig][p];
-      fail("Emitter.emit/connected-slot/not-invoked", "emission of E%d.%s returned after %ld invocation(s) without invoking L%d.%s, which was connected before the outermost emission began and is still connected%s%s",
+      fail(shapedKey("Emitter.emit/connected-slot/not-invoked", e, rc.l), "emission of E%d.%s returned after %ld invocation(s) without invoking L%d.%s, which was connected before the outermost emission began and is still connected%s%s",
            e->idx, SN(e, sig), F.invoked, rc.l->idx, LN(e, sig, rc.which), g.suspect ? "; structures first diverged right after " : "", g.suspect ? g.suspectCtx : "");
     }
     noteSkipped(F, F.pos, e->recs[sig].n);
+    // an outermost emission ran to its end and invoked exactly the model's connections: every connection of this signal disconnected before stayed silent (by listener shape)
+    if (e->depth[sig] == 1) for (int sh = 0; sh < NLS; ++sh) if (e->discPending[sig][sh]) { lsEv(sh, LE_SILENT_AFTER_DISCONNECT, e->discPending[sig][sh]); e->discPending[sig][sh] = 0; }
     if (--e->depth[sig] == 0) { Vec<Rec>& v = e->recs[sig]; size_t k = 0; for (size_t q = 0; q < v.n; ++q) if (v[q].live) { if (k != q) v[k] = v[q]; ++k; } while (v.n > k) v.pop(); }
   } else { cnt("emission_ended_by_emitter_destruction"); arEv(e->ar[sig], AE_ENDED_BY_EMITTER_DESTRUCTION); }
   statMax("max_invocations_in_one_emission", F.invoked);
@@ -630,11 +826,21 @@ static void actDestroyL(LiM* l, bool own) {
   for (int i = 0; i < g.NE; ++i) { EmM* e = g.em[i]; if (!e || !e->live) continue; for (int sig = 0; sig < MAXS; ++sig) { const Vec<Rec>& v = e->recs[sig]; for (size_t q = 0; q < v.n; ++q) if (v[q].live && v[q].l == l && liveOnOtherSignals(e, sig, l, v[q].which)) twin = true; } }
   histf("delete L%d%s%s", l->idx, own ? "   # the listener whose slot is running" : "", pending ? "   # has slots pending in an emission" : "");
   ++g.clock;
-  for (int i = 0; i < g.NE; ++i) { EmM* e = g.em[i]; if (!e || !e->live) continue; for (int sig = 0; sig < MAXS; ++sig) { Vec<Rec>& v = e->recs[sig]; for (size_t q = 0; q < v.n; ++q) if (v[q].live && v[q].l == l) { v[q].live = false; v[q].why = W_LISTENER_DESTROYED; v[q].diedAt = g.clock; } } }
+  bool hadConn = false;
+  for (int i = 0; i < g.NE; ++i) { EmM* e = g.em[i]; if (!e || !e->live) continue; for (int sig = 0; sig < MAXS; ++sig) { Vec<Rec>& v = e->recs[sig]; for (size_t q = 0; q < v.n; ++q) if (v[q].live && v[q].l == l) { v[q].live = false; v[q].why = W_LISTENER_DESTROYED; v[q].diedAt = g.clock; hadConn = true; } } }
   l->live = false;
-  Li* obj = l->obj; l->obj = 0;
+  void* ltop = l->top; l->obj = 0; l->top = 0;
+  if (hadConn) lsEv(l->shape, LE_DESTROY_CONNECTED);
+  if (own) lsEv(l->shape, LE_DESTROY_IN_OWN_SLOT);
   ++g_ops;
-  delete obj;
+  switch (l->shape) {   // deleted as what it was created as
+  case LS_OWN: delete static_cast<Li*>(ltop); break;
+  case LS_PRIMARY: delete static_cast<LiP*>(ltop); break;
+  case LS_SECONDARY: delete static_cast<LiS*>(ltop); break;
+  case LS_SECONDARY_OVERRIDE: delete static_cast<LiO*>(ltop); break;
+  case LS_SECONDARY_OWN: delete static_cast<LiD*>(ltop); break;
+  default: harnessBug("delete listener: shape %d", l->shape);
+  }
   for (int i = 0; i < g.NE; ++i) { EmM* e = g.em[i]; if (!e || !e->live) continue; for (int sig = 0; sig < MAXS; ++sig) if (e->depth[sig] == 0) { Vec<Rec>& v = e->recs[sig]; size_t k = 0; for (size_t q = 0; q < v.n; ++q) if (v[q].live) { if (k != q) v[k] = v[q]; ++k; } while (v.n > k) v.pop(); } }
   cnt("op_destroy_listener"); if (g.frames.n) cnt(own ? "op_destroy_listener_in_own_slot" : "op_destroy_listener_in_other_slot"); if (pending) cnt("op_destroy_listener_with_pending_slots");
   if (deadBefore) cnt("op_destroy_listener_behind_other_record_of_same_slot");
@@ -649,14 +855,16 @@ static void actDestroyE(EmM* e) {
   setctxf("Emitter.destroy/%s", g.frames.n == 0 ? "quiescent" : emitting ? "while-emitting" : "inside-slot-of-other-emitter");
   histf("delete E%d%s", e->idx, emitting ? "   # is emitting" : "");
   ++g.clock;
-  bool twin = false; int depthSum = 0;
-  for (int sig = 0; sig < MAXS; ++sig) { depthSum += e->depth[sig]; const Vec<Rec>& v = e->recs[sig]; for (size_t q = 0; q < v.n; ++q) if (v[q].live && liveOnOtherSignals(e, sig, v[q].l, v[q].which)) twin = true; }
+  bool twin = false, hadConn = false; int depthSum = 0;
+  for (int sig = 0; sig < MAXS; ++sig) { depthSum += e->depth[sig]; const Vec<Rec>& v = e->recs[sig]; for (size_t q = 0; q < v.n; ++q) if (v[q].live) { hadConn = true; if (liveOnOtherSignals(e, sig, v[q].l, v[q].which)) twin = true; } }
+  if (hadConn) esEv(e->shape, EE_DESTROY_CONNECTED);
+  if (emitting) esEv(e->shape, EE_DESTROY_WHILE_EMITTING);
   if (twin) cnt("destroy_emitter_same_slot_on_two_signals_of_one_emitter");
   for (int sig = 0; sig < MAXS; ++sig) { Vec<Rec>& v = e->recs[sig]; for (size_t q = 0; q < v.n; ++q) if (v[q].live) { v[q].live = false; v[q].why = W_EMITTER_DESTROYED; v[q].diedAt = g.clock; } }
   e->live = false;
-  Em* obj = e->obj; e->obj = 0;
+  void* etop = e->top; e->obj = 0; e->top = 0;
   ++g_ops;
-  delete obj;
+  if (e->shape == ES_OWN) delete static_cast<Em*>(etop); else if (e->shape == ES_SECONDARY) delete static_cast<EmS*>(etop); else harnessBug("delete emitter: shape %d", e->shape);   // not polymorphic: deleted as what it was created as
   cnt("op_destroy_emitter"); if (emitting) { cnt("op_destroy_emitter_while_emitting"); if (depthSum > 1) cnt("op_destroy_emitter_with_nested_emissions"); } else if (g.frames.n) cnt("op_destroy_emitter_in_slot");
   g.fp = mix(g.fp, 15 + (u64)e->idx * 7 + (u64)depthNow() * 1000);
   diagnose();
@@ -665,10 +873,24 @@ static void actDestroyE(EmM* e) {
 static void actCreateL(int idx) {
   CtxScope cs;
   setctxf("Listener.create/%s", g.frames.n == 0 ? "quiescent" : "in-slot");
-  histf("L%d = new listener", idx);
-  LiM* l = new LiM; l->idx = idx; l->gen = ++g.gen; l->live = true; ++g_ops; l->obj = new Li(l->gen);
+  LiM* l = new LiM; l->idx = idx; l->gen = ++g.gen; l->live = true;
+  l->shape = g.fixedLShape >= 0 ? g.fixedLShape : g.shapesAll ? (int)g.r.below(NLS) : LS_OWN;
+  histf("L%d = new listener%s%s", idx, l->shape != LS_OWN ? "   # class shape " : "", l->shape != LS_OWN ? LSN[l->shape] : "");
+  ++g_ops;
+  switch (l->shape) {
+  case LS_OWN: { Li* w = new Li(l->gen); l->top = w; l->obj = w; l->topSize = sizeof *w; break; }
+  case LS_PRIMARY: { LiP* w = new LiP(l->gen); l->top = w; l->obj = w; l->topSize = sizeof *w; break; }
+  case LS_SECONDARY: { LiS* w = new LiS(l->gen); l->top = w; l->obj = w; l->topSize = sizeof *w; break; }
+  case LS_SECONDARY_OVERRIDE: { LiO* w = new LiO(l->gen); l->top = w; l->obj = w; l->topSize = sizeof *w; break; }
+  case LS_SECONDARY_OWN: { LiD* w = new LiD(l->gen); l->top = w; l->obj = w; l->topSize = sizeof *w; break; }
+  default: harnessBug("create listener: shape %d", l->shape);
+  }
+#ifndef VERIF_NO_PRIVATE
+  for (int k = 0; k < NAR; ++k) for (int wh = 0; wh < 2; ++wh) l->forms[k][wh] = slotForms(l->shape, l->top, k, wh);
+#endif
+  lsEv(l->shape, LE_CREATE);
   g.allL.push(l); g.li[idx] = l; cnt("op_create_listener");
-  g.fp = mix(g.fp, 16 + (u64)idx);
+  g.fp = mix(g.fp, 16 + (u64)idx + (u64)l->shape * 1000);
   diagnose();
 }
 // which of the 18 signal members stand behind this emitter object's signal indexes (pairwise distinct signal ids)
@@ -692,12 +914,15 @@ static void actCreateE(int idx) {
   CtxScope cs;
   setctxf("Emitter.create/%s", g.frames.n == 0 ? "quiescent" : "in-slot");
   EmM* e = new EmM; e->idx = idx; e->gen = ++g.gen; e->live = true; for (int s = 0; s < MAXS; ++s) { e->depth[s] = 0; e->outerStart[s] = 0; e->everConn[s] = false; }
+  for (int s = 0; s < MAXS; ++s) for (int sh = 0; sh < NLS; ++sh) e->discPending[s][sh] = 0;
   drawSignals(e);
-  histf("E%d = new emitter   # signals %s, %s, %s", idx, SN(e, 0), SN(e, 1), SN(e, 2));
+  e->shape = g.fixedEShape >= 0 ? g.fixedEShape : g.shapesAll ? (int)g.r.below(NES) : ES_OWN;
+  histf("E%d = new emitter   # signals %s, %s, %s%s%s", idx, SN(e, 0), SN(e, 1), SN(e, 2), e->shape != ES_OWN ? "; class shape " : "", e->shape != ES_OWN ? ESN[e->shape] : "");
   ++g_ops;
-  e->obj = new Em(e->gen);
+  if (e->shape == ES_OWN) { Em* v = new Em(e->gen); e->top = v; e->obj = v; } else { EmS* v = new EmS(e->gen); e->top = v; e->obj = v; }
+  esEv(e->shape, EE_CREATE);
   g.allE.push(e); g.em[idx] = e; cnt("op_create_emitter");
-  g.fp = mix(g.fp, 17 + (u64)idx + (u64)e->sid[0] * 100 + (u64)e->sid[1] * 10000 + (u64)e->sid[2] * 1000000);
+  g.fp = mix(g.fp, 17 + (u64)idx + (u64)e->sid[0] * 100 + (u64)e->sid[1] * 10000 + (u64)e->sid[2] * 1000000 + (u64)e->shape * 100000000);
   diagnose();
 }
 
@@ -771,7 +996,7 @@ static void randomAction(const SlotCtx* sc) {
 }
 
 // ------------------------------------------------------------------------------------------------ the slot monitor
-static void onSlot(void* self, int arity, int which, const long* vals) {
+static void onSlotAt(void* self, void* bodyThis, int body, int arity, int which, const long* vals) {
   cnt("slot_invocations"); ++g.invocations;
   if (g.frames.n == 0) fail("Emitter.emit/no-emission-in-progress/slot-invoked", "a slot (%s) was invoked while the harness is not inside any emit call", SLOTN9[arity][which]);
   size_t fi = g.frames.n - 1;
@@ -779,8 +1004,22 @@ static void onSlot(void* self, int arity, int which, const long* vals) {
   LiM* l = liveListenerAt(self);
   const char* sus1 = g.suspect ? "; structures first diverged right after " : ""; const char* sus2 = g.suspect ? g.suspectCtx : "";
   if (!e->live) fail("Emitter.emit/emitter-destroyed/slot-invoked", "slot %s invoked by the emission of E%d.%s after that emitter was destroyed%s%s", SLOTN9[arity][which], e->idx, SN(e, fsig), sus1, sus2);
+  if (!l) {   // not a live listener's slot-declaring subobject: a `this` that points elsewhere into a live receiver object is its own kind of divergence
+    LiM* around = liveListenerAround(bodyThis); if (!around) around = liveListenerAround(self);
+    if (around) { char key[160]; snprintf(key, sizeof key, "Emitter.emit/receiver-shape=%s/slot-invoked-with-misadjusted-this", LSN[around->shape]);
+      fail(key, "emission of E%d.%s invoked slot %s with this = receiver object of L%d %+ld bytes, but the subobject of the class that declares the slot lies at %+ld bytes (receiver class shape %s)%s%s",
+           e->idx, SN(e, fsig), SLOTN9[arity][which], around->idx, (long)((char*)bodyThis - (char*)around->top), (long)((char*)(body ? around->top : (void*)around->obj) - (char*)around->top), LSN[around->shape], sus1, sus2); }
+  }
   if (!l) fail("Emitter.emit/listener-destroyed/slot-invoked", "emission of E%d.%s invoked slot %s on an object that is not a live listener (destroyed earlier)%s%s", e->idx, SN(e, fsig), SLOTN9[arity][which], sus1, sus2);
   histf("-> L%d.%s", l->idx, SLOTN9[arity][which]);
+  {  // the function body the slot pointer had to reach for this receiver class, and the `this` it had to run with
+    int wantBody = l->shape == LS_SECONDARY_OWN || (l->shape == LS_SECONDARY_OVERRIDE && which == 1) ? 1 : 0;
+    if (body != wantBody) { char key[160]; snprintf(key, sizeof key, "Emitter.emit/receiver-shape=%s/wrong-function-body", LSN[l->shape]);
+      fail(key, "emission of E%d.%s invoked slot %s of L%d (receiver class shape %s) in the body of %s, expected the body of %s", e->idx, SN(e, fsig), SLOTN9[arity][which], l->idx, LSN[l->shape],
+           body ? "the derived class" : "class Li", wantBody ? "the derived class (final overrider / own slot)" : "class Li"); }
+    if (bodyThis != (body ? l->top : (void*)l->obj)) { char key[160]; snprintf(key, sizeof key, "Emitter.emit/receiver-shape=%s/slot-invoked-with-misadjusted-this", LSN[l->shape]);
+      fail(key, "emission of E%d.%s invoked slot %s of L%d with this off by %ld bytes (receiver class shape %s)", e->idx, SN(e, fsig), SLOTN9[arity][which], l->idx, (long)((char*)bodyThis - (char*)(body ? l->top : (void*)l->obj)), LSN[l->shape]); }
+  }
   if (arity != e->ar[fsig]) fail("Emitter.emit/other-signal/slot-invoked", "emission of E%d.%s invoked L%d.%s, a slot of another signal", e->idx, SN(e, fsig), l->idx, SLOTN9[arity][which]);
   int sig = fsig;
   Vec<Rec>& v = e->recs[sig];
@@ -793,17 +1032,18 @@ static void onSlot(void* self, int arity, int which, const long* vals) {
       else { deadInEmission = true; deadWhy = v[q].why; }
     }
     char exp[64]; if (p == NPOS) snprintf(exp, sizeof exp, "the end of the emission"); else snprintf(exp, sizeof exp, "L%d.%s", v[p].l->idx, LN(e, sig, v[p].which));
-    if (laterEligible) fail("Emitter.emit/connected-slot/skipped", "emission of E%d.%s invoked L%d.%s but the model expects %s first (connected before the outermost emission began, still connected, not yet invoked)%s%s", e->idx, SN(e, sig), l->idx, LN(e, sig, which), exp, sus1, sus2);
-    if (earlierEligible) fail("Emitter.emit/connected-slot/invoked-again", "emission of E%d.%s invoked L%d.%s out of turn (its connection was already served in this emission); the model expects %s%s%s", e->idx, SN(e, sig), l->idx, LN(e, sig, which), exp, sus1, sus2);
-    if (liveYoung) fail("Emitter.emit/connected-during-emission/slot-invoked", "emission of E%d.%s invoked L%d.%s, which was connected only after the outermost emission of that signal still in progress began; the model expects %s%s%s", e->idx, SN(e, sig), l->idx, LN(e, sig, which), exp, sus1, sus2);
-    if (deadInEmission) fail(deadWhy == W_DISC_EMITTING ? "Emitter.emit/disconnected-during-emission/slot-invoked" : "Emitter.emit/disconnected/slot-invoked", "emission of E%d.%s invoked L%d.%s after it was disconnected; the model expects %s%s%s", e->idx, SN(e, sig), l->idx, LN(e, sig, which), exp, sus1, sus2);
-    fail("Emitter.emit/not-connected/slot-invoked", "emission of E%d.%s invoked L%d.%s, which has no live connection to that signal (disconnected earlier or never connected); the model expects %s%s%s", e->idx, SN(e, sig), l->idx, LN(e, sig, which), exp, sus1, sus2);
+    if (laterEligible) fail(shapedKey("Emitter.emit/connected-slot/skipped", e, l), "emission of E%d.%s invoked L%d.%s but the model expects %s first (connected before the outermost emission began, still connected, not yet invoked)%s%s", e->idx, SN(e, sig), l->idx, LN(e, sig, which), exp, sus1, sus2);
+    if (earlierEligible) fail(shapedKey("Emitter.emit/connected-slot/invoked-again", e, l), "emission of E%d.%s invoked L%d.%s out of turn (its connection was already served in this emission); the model expects %s%s%s", e->idx, SN(e, sig), l->idx, LN(e, sig, which), exp, sus1, sus2);
+    if (liveYoung) fail(shapedKey("Emitter.emit/connected-during-emission/slot-invoked", e, l), "emission of E%d.%s invoked L%d.%s, which was connected only after the outermost emission of that signal still in progress began; the model expects %s%s%s", e->idx, SN(e, sig), l->idx, LN(e, sig, which), exp, sus1, sus2);
+    if (deadInEmission) fail(shapedKey(deadWhy == W_DISC_EMITTING ? "Emitter.emit/disconnected-during-emission/slot-invoked" : "Emitter.emit/disconnected/slot-invoked", e, l), "emission of E%d.%s invoked L%d.%s after it was disconnected; the model expects %s%s%s", e->idx, SN(e, sig), l->idx, LN(e, sig, which), exp, sus1, sus2);
+    fail(shapedKey("Emitter.emit/not-connected/slot-invoked", e, l), "emission of E%d.%s invoked L%d.%s, which has no live connection to that signal (disconnected earlier or never connected); the model expects %s%s%s", e->idx, SN(e, sig), l->idx, LN(e, sig, which), exp, sus1, sus2);
   }
   noteSkipped(g.frames[fi], g.frames[fi].pos, p);
   g.frames[fi].pos = p + 1; ++g.frames[fi].invoked;
   for (int a = 0; a < arity; ++a) if (vals[a] != argVal(g.frames[fi].arg, a))
     fail("Emitter.emit/argument/value", "slot L%d.%s received %ld as argument #%d of %d, the emission passed %ld", l->idx, LN(e, sig, which), vals[a], a, arity, argVal(g.frames[fi].arg, a));
   arEv(arity, AE_INVOKED); arEv(arity, AE_ARGUMENTS_COMPARED, arity); sgEv(e->sid[sig], SE_INVOKED);
+  lsEv(l->shape, LE_INVOKED); if (which == 1) lsEv(l->shape, LE_INVOKED_VIRTUAL_SLOT); if (body) lsEv(l->shape, LE_INVOKED_DERIVED_BODY); esEv(e->shape, EE_INVOKED); ++g_pairInvoked[e->shape][l->shape];
   if (liveOnOtherSignals(e, sig, l, which)) cnt("invoked_slot_also_on_other_signal_of_emitter");
   cnt("invocations_matched");
   // ---- nested actions, drawn from the same stream
@@ -818,7 +1058,7 @@ static void onSlot(void* self, int arity, int which, const long* vals) {
 static void resetCase() {
   for (int i = 0; i < MAXE; ++i) g.em[i] = 0;
   for (int i = 0; i < MAXL; ++i) g.li[i] = 0;
-  g.frames.clear(); g.serial = 1; g.clock = 1; g.gen = 0; g.argSeq = 1000; g.fp = 0; g.invocations = 0; g.nestedActions = 0; g.maxDepthSeen = 0; g.script = 0; g.fixedAr = -1; g.fixedTwin = false; g.npal = NAR; for (int i = 0; i < NAR; ++i) g.pal[i] = i; g.twinNum = 2; g.suspect = false; g.topAction = "setup";
+  g.frames.clear(); g.serial = 1; g.clock = 1; g.gen = 0; g.argSeq = 1000; g.fp = 0; g.invocations = 0; g.nestedActions = 0; g.maxDepthSeen = 0; g.script = 0; g.fixedAr = -1; g.fixedLShape = g.fixedEShape = 0; g.shapesAll = false; g.ptrMode = 0; g.fixedTwin = false; g.npal = NAR; for (int i = 0; i < NAR; ++i) g.pal[i] = i; g.twinNum = 2; g.suspect = false; g.topAction = "setup";
   g.NE = 1; g.NL = 1; g.NS = 2; g.NW = 2; g.maxDepth = 4; g.nestNum = 0; g.nestDen = 1; g.slotBudget = 0;
   for (int i = 0; i < NKINDS; ++i) g.w[i] = 1;
   ElemReg::reset();
@@ -873,6 +1113,7 @@ static void randomPrograms() {
     g.twinNum = tiny ? (int)r.range(2, 4) : (int)r.range(0, 4);   // chance/4 that a signal index of an emitter object is the same-arity twin of an earlier one
     if (r.chance(1, 2)) { g.npal = (int)r.range(2, 3); for (int i = 0; i < g.npal; ++i) { int j = i + (int)r.below((u64)(NAR - i)); int t = g.pal[i]; g.pal[i] = g.pal[j]; g.pal[j] = t; } }   // small palette of arities: emitters share arities
     g.NW = r.chance(1, 3) ? 1 : 2;
+    g.fixedLShape = g.fixedEShape = -1; g.shapesAll = !r.chance(1, 8); g.ptrMode = r.chance(3, 4) ? 1 : 0;   // class shapes: every listener / emitter object (also a recreated one) draws its own; 1 case in 8 keeps the plain shapes throughout
     g.maxDepth = r.chance(3, 4) ? 4 : (int)r.range(1, 3);
     { int c = (int)r.below(4); g.nestNum = c == 0 ? 1 : c == 1 ? 1 : c == 2 ? 2 : 9; g.nestDen = c == 0 ? 8 : c == 1 ? 3 : c == 2 ? 3 : 10; }
     g.slotBudget = r.range(40, 400);
@@ -881,7 +1122,7 @@ static void randomPrograms() {
     if (r.chance(1, 2)) { g.w[K_DESTROY_E] = (g.w[K_DESTROY_E] + 2) / 3; g.w[K_FOCUS_DESTROY_E] = (g.w[K_FOCUS_DESTROY_E] + 2) / 3; }
     if (g.w[K_DESTROY_L] + g.w[K_DESTROY_E] + g.w[K_FOCUS_DESTROY_L] + g.w[K_FOCUS_DESTROY_E] && !g.w[K_RECREATE]) g.w[K_RECREATE] = 2;
     int ntop = (int)r.range(6, r.chance(1, 6) ? 80 : 30);
-    hist.addf("# C12 random program: emitters=%d listeners=%d signals/emitter=%d (drawn per emitter object: twin chance %d/4, %d arities in the palette) slots/signal=%d maxdepth=%d nest=%d/%d budget=%ld top-level actions=%d\n# weights:", g.NE, g.NL, g.NS, g.twinNum, g.npal, g.NW, g.maxDepth, g.nestNum, g.nestDen, g.slotBudget, ntop);
+    hist.addf("# C12 random program: emitters=%d listeners=%d signals/emitter=%d (drawn per emitter object: twin chance %d/4, %d arities in the palette) slots/signal=%d class shapes=%s maxdepth=%d nest=%d/%d budget=%ld top-level actions=%d\n# weights:", g.NE, g.NL, g.NS, g.twinNum, g.npal, g.NW, g.shapesAll ? "drawn per object" : "own", g.maxDepth, g.nestNum, g.nestDen, g.slotBudget, ntop);
     for (int i = 0; i < NKINDS; ++i) hist.addf(" %s=%d", KINDN[i], g.w[i]);
     hist.add("\n");
     top("setup");
@@ -1023,6 +1264,32 @@ static void scenarioTwin(int variant, int arity) {
   cnt("scripted_scenarios"); cnt("scripted_twin_signal_scenarios");
 }
 
+// class-shape scenarios: the same short history for every (listener shape, emitter shape, arity): slots a and b (virtual) of L0 and slot a of L1 connected, emitted;
+// L0.a disconnected at top level, emitted (must stay silent), connected again, emitted (one delivery, now last); then L0.b disconnects itself and the pending L0.a from
+// inside its slot; emitted; both connected again and L0 deleted (even arities) or the emitter deleted (odd arities); emitted. L1 has the next shape in the list.
+// Each once with the complete-object pointers in every call and once with disconnect() getting pointers to the base classes Li / Em where the class has one.
+static void scriptShapeDisc(const SlotCtx& sc) { if (s_step++ == 0) { actDisconnect(sc.e, sc.sig, sc.l, 1); actDisconnect(sc.e, sc.sig, sc.l, 0); } }
+static void scenarioShape(int lshape, int eshape, int arity, int ptrMode) {
+  resetCase(); g.NE = 1; g.NL = 2; s_step = 0; g.fixedAr = arity; g.fixedEShape = eshape; g.ptrMode = ptrMode;
+  hist.addf("# C12 scripted class-shape scenario: listener shape %s, emitter shape %s, arity %d, %s\n", LSN[lshape], ESN[eshape], arity, ptrMode ? "disconnect() gets base-class pointers" : "complete-object pointers throughout");
+  top("setup"); actCreateE(0); g.fixedLShape = lshape; actCreateL(0); g.fixedLShape = (lshape + 1) % NLS; actCreateL(1);
+  EmM* e = g.em[0]; LiM* l0 = g.li[0]; LiM* l1 = g.li[1];
+  actConnect(e, 0, l0, 0); actConnect(e, 0, l0, 1); actConnect(e, 0, l1, 0); quiescentCheck();
+  top("emit"); actEmit(e, 0); quiescentCheck();
+  top("disconnect"); actDisconnect(e, 0, l0, 0); quiescentCheck();
+  top("emit"); actEmit(e, 0); quiescentCheck();
+  top("connect"); actConnect(e, 0, l0, 0); quiescentCheck();
+  top("emit"); actEmit(e, 0); quiescentCheck();
+  g.script = scriptShapeDisc; top("emit"); actEmit(e, 0); quiescentCheck(); g.script = 0;
+  top("emit"); actEmit(e, 0); quiescentCheck();
+  top("connect"); actConnect(e, 0, l0, 1); quiescentCheck(); actConnect(e, 0, l0, 0); quiescentCheck();
+  top("emit"); actEmit(e, 0); quiescentCheck();
+  if (arity & 1) { top("destroy-emitter"); actDestroyE(e); quiescentCheck(); }
+  else { top("destroy-listener"); actDestroyL(l0, false); quiescentCheck(); top("emit"); actEmit(e, 0); quiescentCheck(); }
+  destroyEverything();
+  cnt("scripted_scenarios"); cnt("scripted_class_shape_scenarios");
+}
+
 static int probe(const char* key) {
   beginCase(-1);
   if (!strcmp(key, KEY_DISC)) { for (int k = 0; k < NAR; ++k) { scenario(0, k); scenario(2, k); } return 0; }
@@ -1043,6 +1310,7 @@ int main(int argc, char** argv) {
         if (!excluded(KEY_DISC)) { scenario(0, k); scenario(2, k); }
         if (!excluded(KEY_LDESTROY)) scenario(1, k);
         for (int v = 0; v < 3; ++v) scenarioTwin(v, k);
+        for (int ls = 0; ls < NLS; ++ls) for (int es = 0; es < NES; ++es) for (int pm = 0; pm <= 2; pm += 2) scenarioShape(ls, es, k, pm);
       }
       endCase(1, true);
     }
@@ -1052,6 +1320,7 @@ int main(int argc, char** argv) {
     exhaustivePrograms(opts.mode[3] - '0', opts.mode[4] - '0', opts.mode[5] == 'x');
   else harnessBug("unknown mode %s", opts.mode);
   flushArityStats();
+  flushShapeStats();
   flushWalkStats();
   leakCheck("Callback/leak");
   finish();
